@@ -145,6 +145,34 @@ theorem ids_never_reused {w : World} (h : Reach w) :
     (w.subs.map (·.id)).Nodup ∧ (∀ l ∈ w.subs, l.id ∈ w.used) ∧ ∀ id ∈ deadOf w.out, id ∈ w.used ∧ ∀ l ∈ w.subs, l.id ≠ id :=
   ⟨(reach_ids h).nodup, (reach_ids h).used, fun id hid => ⟨(reach_ids h).dead_used id hid, (reach_ids h).dead_gone id hid⟩⟩
 
+/-- Light centre, receiver API: `UnsubscribeWithReceiver(name, r, cb)` removes a listener of that name whose callback
+is `cb` and that was subscribed either without a receiver or with receiver `r` — whenever there is one — and
+`SubscribeWithReceiver` is refused in exactly that situation (the callback is never registered twice). -/
+theorem receiver_matching_rule (w : World) (c e f r : Nat) (ct : CAttr) (hc : w.cs[c]? = some ct) (hl : ct.light = true)
+    (hr : r ≠ 0) (l : Sub) (hm : l ∈ lisOf w c e) (hfn : l.fn = f) (hrecv : recvOf w l.id = 0 ∨ recvOf w l.id = r) :
+    (∃ l', l' ∈ lisOf w c e ∧ recvMatch w f r l' = true ∧ doUnsubR w c e f r = removeSub w c e l'.id) ∧
+    (∀ t tm, tmplOf w t = some tm → tm.fn = f → t ∉ w.used → ct.running = true →
+      (doSubR w c e t r).subs = w.subs) := by
+  have hmatch : recvMatch w f r l = true := by
+    simp only [recvMatch, Bool.and_eq_true, beq_iff_eq, Bool.or_eq_true]
+    exact ⟨hfn, hrecv⟩
+  have hr' : (r == 0) = false := by simpa using hr
+  refine ⟨?_, ?_⟩
+  · cases hf : (lisOf w c e).find? (recvMatch w f r) with
+    | none =>
+      have := List.find?_eq_none.mp hf l hm
+      simp [hmatch] at this
+    | some l' =>
+      refine ⟨l', List.mem_of_find?_eq_some hf, List.find?_some hf, ?_⟩
+      simp [doUnsubR, hc, hl, hr', hf]
+  · intro t tm ht htf hu hrun
+    have hu' : w.used.contains t = false := by simpa using hu
+    have hany : (lisOf { w with used := t :: w.used } c e).any (recvMatch { w with used := t :: w.used } tm.fn r) = true := by
+      simp only [List.any_eq_true]
+      exact ⟨l, hm, by rw [htf]; exact hmatch⟩
+    simp only [doSubR, hc, ht, hl, hr', hu', hrun]
+    simp [hany, emit]
+
 /-! ### global centre -/
 
 /-- For every (name, centre) pair on which nobody called the global centre's own Subscribe/Unsubscribe directly:
